@@ -119,4 +119,6 @@ def node_inv(e):
         return e.operator in COMPARISON_OPERATORS
     if isinstance(e, p.CommonSubexpression):
         return e.scope is not None
+    if isinstance(e, p.Slice):
+        return len(e.children) <= 3      # the field annotation admits tuples of length 0..3 only
     return True
